@@ -172,6 +172,24 @@ fn run_life(pool: &dyn Pool, nf: usize, life: &Value) {
         "panics":pn,"live":interpose::owned_live(),"rwx_anon":watch::rwx_anon_count()}));
 }
 
+/// run `f` from a destructor while the thread unwinds from an unrelated panic: everything the library
+/// does must be the same when `std::thread::panicking()` is already true (only the call-count verifier
+/// is, by design, silent then)
+fn ambient_unwind(f: impl FnOnce()) {
+    struct OnDrop<F: FnOnce()>(Option<F>);
+    impl<F: FnOnce()> Drop for OnDrop<F> {
+        fn drop(&mut self) {
+            if let Some(f) = self.0.take() {
+                f();
+            }
+        }
+    }
+    let _ = catch_unwind(AssertUnwindSafe(|| {
+        let _g = OnDrop(Some(f));
+        std::panic::panic_any(UserPanic);
+    }));
+}
+
 fn run_scenario(sc: &Value) {
     panics::install_hook();
     let pool = pool::make(&s(sc, "pool"));
@@ -181,8 +199,16 @@ fn run_scenario(sc: &Value) {
     let want_diff = sc.get("diff").and_then(|x| x.as_bool()).unwrap_or(false);
     let img = if want_diff { Some(watch::exec_image(&[])) } else { None };
     let lives = sc.get("lives").and_then(|x| x.as_array()).cloned().unwrap_or_default();
+    let ambient = sc.get("ambient").and_then(|x| x.as_bool()).unwrap_or(false);
+    if ambient {
+        emit(json!({"ev":"Ambient","panicking":true}));
+    }
     for life in &lives {
-        run_life(&*pool, nf, life);
+        if ambient {
+            ambient_unwind(|| run_life(&*pool, nf, life));
+        } else {
+            run_life(&*pool, nf, life);
+        }
         if let Some(img) = &img {
             watch::emit_diff(img, "after");
         }
